@@ -8,6 +8,7 @@ The old theorems (`denOps_compile`, `eval_denotes`, `find_print_denotes`) are co
 (`denoteR_forget_of_uni`, `find_print_denotes_cor`).
 -/
 import Proofs.C14
+import Proofs.C14SliceSpec
 namespace Flatland.C14.Proofs
 open Flatland.Path Flatland.C14.Spec Flatland.Path.Lemmas
 
